@@ -780,8 +780,8 @@ theorem parse_treeNexus (C : NewickCodec) (L : NewickLaws C) (t : T)
     (by intro it hit; simp at hit; subst hit; exact hs)
     (by
       intro it hit; simp at hit; subst hit
-      simp only [okTaxa, Bool.and_eq_true, List.all_eq_true, beq_iff_eq]
-      exact ⟨fun x hx => by simpa using hx, trivial⟩)
+      simp only [okTaxa, List.all_eq_true]
+      exact fun x hx => by simpa using hx)
   rw [treeNexus_eq, this]
   have : "tree" ++ Nat.repr 1 = "tree1" := by decide
   simp [this]
